@@ -33,6 +33,7 @@ declare -A PROP=(
  ["wrap ends a call whose context is already done"]="C13"
  ["electric models no longer share one default random"]="C11"
  ["wrap stream operations report the call's cancellation"]="C13"
+ ["a Collection subscriber skips the events of writes"]="C03"
 )
 git -C /repo log --format='%h %s' | grep ' fix: ' | while read -r h subj; do
   prop=""
